@@ -285,14 +285,14 @@ Proof.
   destruct (find (fun pl : pool => String.eqb (pl_name pl) (get K_POOL (labels n)) && pl_managed pl) (w_pools w))
     as [pl|]; simpl; [|now rewrite !andb_false_r].
   destruct (pool_its pl) as [its|]; simpl; [|now rewrite !andb_false_r].
-  unfold should_disrupt, should_consolidate, is_empty, method_req_b. simpl.
-  Show. rewrite !is_empty_char. fold (o_empty n).
+  unfold should_disrupt, should_consolidate, is_empty, method_req_b.
+  remember (o_empty n) as oe eqn:Hoe. unfold o_empty in Hoe. rewrite <- is_empty_char in Hoe.
   rewrite (Z.leb_antisym 0 (s_buffer n)).
   destruct (w_fault w), (o_pod_blocked (d_now d) (w_pdbs w) n), (c_tgp c), m; simpl; try reflexivity;
-    rewrite ?andb_false_r; try reflexivity;
+    rewrite <- ?Hoe; rewrite ?andb_false_r; try reflexivity;
     destruct (pl_static pl); simpl; try reflexivity;
     destruct (is_set (pl_after pl)); simpl; rewrite ?andb_false_r; try reflexivity;
-    destruct (o_empty n); simpl; rewrite ?andb_false_r; try reflexivity;
+    destruct oe; simpl; rewrite ?andb_false_r; try reflexivity;
     destruct (cond_true (c_consolidatable c)); simpl; rewrite ?andb_false_r; try reflexivity;
     destruct (cond_true (c_drifted c)); simpl; rewrite ?andb_false_r; try reflexivity;
     destruct (0 <? s_buffer n); simpl; try reflexivity;
@@ -301,3 +301,373 @@ Proof.
     destruct (has K_ZONE (labels n)); simpl; rewrite ?andb_false_r; try reflexivity;
     destruct (String.eqb (pl_policy pl) "WhenEmpty"); reflexivity.
 Qed.
+
+(* ------------------------------------------------------------------ candidate sets *)
+
+Lemma get_candidates_some w m ids :
+  get_candidates w m = Some ids ->
+  ids = map s_id (filter (is_candidate w (final w) m) (w_nodes w)).
+Proof. unfold get_candidates. destruct (w_fault w); intros H; inversion H; reflexivity. Qed.
+
+(* Membership in the candidate set of a method is exactly: eligible (the property) and the
+   method-independent technical requirements [extra_b]. *)
+Theorem candidate_iff_l : forall w m ids id, pdbs_wf w -> get_candidates w m = Some ids ->
+  (In id ids <-> exists n, In n (w_nodes w) /\ s_id n = id /\ eligible w (final w) m n /\ extra_b w m n = true).
+Proof.
+  intros w m ids id wf H. apply get_candidates_some in H. subst ids.
+  rewrite in_map_iff. split.
+  - intros [n [Hid Hn]]. apply filter_In in Hn. destruct Hn as [Hn Hc].
+    rewrite (is_candidate_char _ _ _ _ wf) in Hc. apply andb_true_iff in Hc. destruct Hc as [He Hx].
+    exists n. repeat split; try assumption. now apply eligible_b_spec.
+  - intros [n [Hn [Hid [He Hx]]]]. exists n. split; [exact Hid|]. apply filter_In. split; [exact Hn|].
+    rewrite (is_candidate_char _ _ _ _ wf). apply andb_true_iff. split; [now apply eligible_b_spec|exact Hx].
+Qed.
+
+Theorem candidate_implies_eligible_l : forall w m ids id, pdbs_wf w -> get_candidates w m = Some ids ->
+  In id ids -> exists n, In n (w_nodes w) /\ s_id n = id /\ eligible w (final w) m n.
+Proof.
+  intros w m ids id wf H Hin. destruct (proj1 (candidate_iff_l w m ids id wf H) Hin) as [n [H1 [H2 [H3 _]]]].
+  exists n. auto.
+Qed.
+
+(* a failing List of NodePools or PDBs yields no candidates at all *)
+Lemma list_failure_no_candidates w m : w_fault w = FPools \/ w_fault w = FPdbs -> get_candidates w m = None.
+Proof. unfold get_candidates. intros [H|H]; rewrite H; reflexivity. Qed.
+
+(* the oracle on observed candidate ids *)
+Theorem holds_m_spec w m ids :
+  holds_m w m ids = true <->
+  forall id, In id ids -> exists n, In n (w_nodes w) /\ s_id n = id /\ eligible w (final w) m n.
+Proof.
+  unfold holds_m. rewrite forallb_forall. split; intros H id Hid; specialize (H id Hid).
+  - apply existsb_exists in H. destruct H as [n [Hn H]]. apply andb_true_iff in H. destruct H as [H1 H2].
+    exists n. repeat split; [exact Hn|now apply String.eqb_eq|now apply eligible_b_spec].
+  - destruct H as [n [Hn [H1 H2]]]. apply existsb_exists. exists n. split; [exact Hn|].
+    apply andb_true_iff. split; [now apply String.eqb_eq|now apply eligible_b_spec].
+Qed.
+
+Theorem model_satisfies_oracle w m ids : pdbs_wf w -> get_candidates w m = Some ids -> holds_m w m ids = true.
+Proof.
+  intros wf H. apply holds_m_spec. intros id Hid. eapply candidate_implies_eligible_l; eassumption.
+Qed.
+
+(* ------------------------------------------------------------------ individual blockers, as corollaries *)
+
+Section Blockers.
+  Variables (w : world) (m : method) (ids : list string) (id : string).
+  Hypothesis wf : pdbs_wf w.
+  Hypothesis Hget : get_candidates w m = Some ids.
+  Hypothesis Hin : In id ids.
+
+  Let me_of (n : snode) := mem_of (d_mem (final w)) (s_id n).
+  Let now := d_now (final w).
+
+  (* only the eventual class (drift, static drift) may override pod-level blockers, and only with a TGP *)
+  Lemma pod_blockers_l :
+    exists n c, In n (w_nodes w) /\ s_id n = id /\ s_claim n = Some c /\
+      (pod_blocked now (w_pdbs w) n -> (m = Drift \/ m = StaticDrift) /\ c_tgp c = true).
+  Proof.
+    destruct (candidate_implies_eligible_l w m ids id wf Hget Hin) as [n [Hn [Hid He]]].
+    destruct He as [c [k [Hc [_ [_ [_ [_ [_ [_ [Hp _]]]]]]]]]].
+    exists n, c. repeat split; try assumption.
+    - destruct (Hp H) as [He _]. destruct m; simpl in He; try discriminate; auto.
+    - now destruct (Hp H).
+  Qed.
+
+  Lemma graceful_never_blocked_l :
+    eventual m = false ->
+    exists n, In n (w_nodes w) /\ s_id n = id /\ ~ pod_blocked now (w_pdbs w) n.
+  Proof.
+    intros Hm. destruct (candidate_implies_eligible_l w m ids id wf Hget Hin) as [n [Hn [Hid He]]].
+    destruct He as [c [k [_ [_ [_ [_ [_ [_ [_ [Hp _]]]]]]]]]].
+    exists n. repeat split; try assumption. intros Hb. destruct (Hp Hb) as [He _]. congruence.
+  Qed.
+
+  Lemma consolidation_requires_l :
+    is_consolidation m = true ->
+    exists n c pl, In n (w_nodes w) /\ s_id n = id /\ s_claim n = Some c /\ o_pool w n = Some pl /\
+      c_consolidatable c = Some CTrue /\ pl_static pl = false /\ (exists a, pl_after pl = Some a) /\
+      (m <> Emptiness -> ~ empty n /\ pl_policy pl <> "WhenEmpty") /\
+      (m = Emptiness -> empty n /\ s_buffer n <= 0).
+  Proof.
+    intros Hm. destruct (candidate_implies_eligible_l w m ids id wf Hget Hin) as [n [Hn [Hid He]]].
+    destruct He as [c [k [Hc [_ [_ [_ [_ [_ [_ [_ [pl [Hpl Hr]]]]]]]]]]]].
+    exists n, c, pl. do 4 (split; [assumption|]).
+    destruct m; simpl in Hm; try discriminate; simpl in Hr; destruct Hr as [H1 [H2 [H3 [H4 H5]]]];
+      repeat split; try assumption; try congruence; intros; try congruence; tauto.
+  Qed.
+End Blockers.
+
+(* ------------------------------------------------------------------ histories of the in-memory protection state *)
+
+(* what a history does to one node: its projection *)
+Definition step1 (bm : Z) (id : string) (st : Z * mem) (o : op) : Z * mem :=
+  match o with
+  | OMark i => (fst st, if String.eqb i id then mkMem true (m_until (snd st)) else snd st)
+  | OUnmark i => (fst st, if String.eqb i id then mkMem false (m_until (snd st)) else snd st)
+  | ONominate i => (fst st, if String.eqb i id then mkMem (m_marked (snd st)) (Some (fst st + nom_window bm)) else snd st)
+  | OTick dt => (fst st + dt, snd st)
+  | ORefresh _ => st
+  end.
+
+Lemma upd_keys i f ms : map fst (upd i f ms) = map fst ms.
+Proof.
+  unfold upd. rewrite map_map. apply map_ext. intros [j mj]. simpl. destruct (String.eqb i j); reflexivity.
+Qed.
+
+Lemma mem_of_upd i f ms id : In id (map fst ms) ->
+  mem_of (upd i f ms) id = if String.eqb i id then f (mem_of ms id) else mem_of ms id.
+Proof.
+  induction ms as [|[j mj] r IH]; simpl; [tauto|]. intros Hin.
+  destruct (String.eqb_spec id j) as [E|NE].
+  - subst j. destruct (String.eqb_spec i id) as [E2|NE2]; simpl; now rewrite String.eqb_refl.
+  - assert (Hr : In id (map fst r)) by (destruct Hin; [congruence|assumption]).
+    specialize (IH Hr).
+    destruct (String.eqb i j); simpl; destruct (String.eqb_spec id j); try congruence; exact IH.
+Qed.
+
+Lemma step_proj bm d o id : In id (map fst (d_mem d)) ->
+  (d_now (step bm d o), mem_of (d_mem (step bm d o)) id) = step1 bm id (d_now d, mem_of (d_mem d) id) o
+  /\ map fst (d_mem (step bm d o)) = map fst (d_mem d).
+Proof.
+  intros Hin. destruct o; simpl; rewrite ?upd_keys, ?(mem_of_upd _ _ _ _ Hin); split; try reflexivity.
+Qed.
+
+Lemma run_proj bm id ops : forall d, In id (map fst (d_mem d)) ->
+  (d_now (fold_left (step bm) ops d), mem_of (d_mem (fold_left (step bm) ops d)) id)
+  = fold_left (step1 bm id) ops (d_now d, mem_of (d_mem d) id).
+Proof.
+  induction ops as [|o ops IH]; intros d Hin; simpl; [reflexivity|].
+  destruct (step_proj bm d o id Hin) as [H1 H2].
+  rewrite IH by (rewrite H2; exact Hin). now rewrite H1.
+Qed.
+
+Definition no_unmark (id : string) (ops : list op) : Prop := forall i, In (OUnmark i) ops -> i <> id.
+Definition no_nominate (id : string) (ops : list op) : Prop := forall i, In (ONominate i) ops -> i <> id.
+Definition ticks (ops : list op) : Z := fold_right (fun o acc => match o with OTick dt => dt + acc | _ => acc end) 0 ops.
+
+Lemma marked_preserved bm id ops : forall st, no_unmark id ops -> m_marked (snd st) = true ->
+  m_marked (snd (fold_left (step1 bm id) ops st)) = true.
+Proof.
+  induction ops as [|o ops IH]; intros st Hno Hm; simpl; [exact Hm|].
+  apply IH.
+  - intros i Hi. apply Hno. now right.
+  - destruct o; simpl; try exact Hm.
+    + destruct (String.eqb id0 id); [reflexivity|exact Hm].
+    + destruct (String.eqb_spec id0 id) as [E|NE]; [|exact Hm]. exfalso. apply (Hno id0); [now left|exact E].
+    + destruct (String.eqb id0 id); exact Hm.
+Qed.
+
+Lemma until_preserved bm id ops : forall st, no_nominate id ops ->
+  m_until (snd (fold_left (step1 bm id) ops st)) = m_until (snd st) /\
+  fst (fold_left (step1 bm id) ops st) = fst st + ticks ops.
+Proof.
+  induction ops as [|o ops IH]; intros st Hno; simpl; [split; [reflexivity|lia]|].
+  assert (Hno' : no_nominate id ops) by (intros i Hi; apply Hno; now right).
+  destruct (IH (step1 bm id st o) Hno') as [H1 H2]. rewrite H1, H2.
+  destruct o; simpl; try (split; [reflexivity|lia]).
+  - destruct (String.eqb id0 id); simpl; split; try reflexivity; lia.
+  - destruct (String.eqb id0 id); simpl; split; try reflexivity; lia.
+  - destruct (String.eqb_spec id0 id) as [E|NE]; [|split; [reflexivity|lia]].
+    exfalso. apply (Hno id0); [now left|exact E].
+Qed.
+
+Lemma final_proj w n : In n (w_nodes w) ->
+  (d_now (final w), mem_of (d_mem (final w)) (s_id n)) = fold_left (step1 (w_bm w) (s_id n)) (w_ops w) (w_t0 w, mem0).
+Proof.
+  intros Hn. unfold final.
+  assert (Hk : In (s_id n) (map fst (d_mem (init_dyn w)))).
+  { simpl. rewrite map_map. simpl. apply in_map_iff. exists n. split; [reflexivity|exact Hn]. }
+  rewrite (run_proj _ _ _ _ Hk). simpl.
+  replace (mem_of (map (fun n0 => (s_id n0, mem0)) (w_nodes w)) (s_id n)) with mem0; [reflexivity|].
+  clear Hk Hn. induction (w_nodes w) as [|a l IH]; simpl; [reflexivity|].
+  destruct (String.eqb (s_id n) (s_id a)); [reflexivity|exact IH].
+Qed.
+
+(* A node marked for deletion (and not unmarked since) is no candidate of any method, whatever else happened. *)
+Theorem marked_protects_l : forall w m ids id ops1 ops2,
+  pdbs_wf w -> get_candidates w m = Some ids ->
+  w_ops w = (ops1 ++ OMark id :: ops2)%list -> no_unmark id ops2 -> ~ In id ids.
+Proof.
+  intros w m ids id ops1 ops2 wf Hget Hops Hno Hin.
+  destruct (candidate_implies_eligible_l w m ids id wf Hget Hin) as [n [Hn [Hid He]]].
+  destruct He as [c [k [_ [_ [_ [Hdel _]]]]]]. apply Hdel. left.
+  pose proof (final_proj w n Hn) as Hp. rewrite Hops, fold_left_app in Hp. cbn [fold_left] in Hp.
+  rewrite Hid in Hp.
+  set (st1 := fold_left (step1 (w_bm w) id) ops1 (w_t0 w, mem0)) in Hp.
+  assert (Hm : m_marked (snd (fold_left (step1 (w_bm w) id) ops2 (step1 (w_bm w) id st1 (OMark id)))) = true).
+  { apply marked_preserved; [exact Hno|]. simpl. now rewrite String.eqb_refl. }
+  rewrite <- Hp in Hm. simpl in Hm. rewrite Hid. exact Hm.
+Qed.
+
+(* A node nominated for pending pods is no candidate of any method until the nomination window
+   max(2*BatchMaxDuration, 10s) has passed, whatever else happened in between. *)
+Theorem nominated_protects_l : forall w m ids id ops1 ops2,
+  pdbs_wf w -> get_candidates w m = Some ids ->
+  w_ops w = (ops1 ++ ONominate id :: ops2)%list -> no_nominate id ops2 -> ticks ops2 < nom_window (w_bm w) ->
+  ~ In id ids.
+Proof.
+  intros w m ids id ops1 ops2 wf Hget Hops Hno Ht Hin.
+  destruct (candidate_implies_eligible_l w m ids id wf Hget Hin) as [n [Hn [Hid He]]].
+  destruct He as [c [k [_ [_ [_ [_ [Hnom _]]]]]]]. apply Hnom.
+  pose proof (final_proj w n Hn) as Hp. rewrite Hops, fold_left_app in Hp. cbn [fold_left] in Hp.
+  rewrite Hid in Hp.
+  set (st1 := fold_left (step1 (w_bm w) id) ops1 (w_t0 w, mem0)) in Hp.
+  destruct (until_preserved (w_bm w) id ops2 (step1 (w_bm w) id st1 (ONominate id)) Hno) as [H1 H2].
+  rewrite <- Hp in H1, H2. simpl in H1, H2. rewrite String.eqb_refl in H1. simpl in H1.
+  rewrite Hid. exists (fst st1 + nom_window (w_bm w)). split; [exact H1|]. rewrite H2. lia.
+Qed.
+
+(* ... and refreshing the StateNode from new Node / NodeClaim objects changes nothing *)
+Lemma refresh_is_noop bm d id : step bm d (ORefresh id) = d.
+Proof. reflexivity. Qed.
+
+(* ------------------------------------------------------------------ the Consolidatable condition *)
+
+Definition consolidatable_spec (i : cinput) : Prop :=
+  exists a, ci_after i = Some a /\ ci_init i = Some CTrue /\ (a = 0 \/ a <= ci_now i - time_to_check i).
+
+Lemma consolidatable_spec_b_iff i : consolidatable_spec_b i = true <-> consolidatable_spec i.
+Proof.
+  unfold consolidatable_spec_b, consolidatable_spec. destruct (ci_after i) as [a|].
+  - rewrite andb_true_iff, orb_true_iff, cond_true_iff, Z.eqb_eq, Z.leb_le. split.
+    + intros [H1 H2]. exists a. auto.
+    + intros [a' [E [H1 H2]]]. inversion E; subst. auto.
+  - split; [discriminate|intros [a [E _]]; discriminate].
+Qed.
+
+(* after a reconcile the condition is True exactly when consolidateAfter is set, the claim is initialized
+   and consolidateAfter has elapsed since the last pod event (or since initialization); otherwise it is absent *)
+Theorem consolidatable_iff_l : forall i,
+  (fst (reconcile_consolidatable i) = Some CTrue <-> consolidatable_spec i) /\
+  (fst (reconcile_consolidatable i) = Some CTrue \/ fst (reconcile_consolidatable i) = None).
+Proof.
+  intros i. unfold reconcile_consolidatable, under_consolidate_after, consolidatable_spec.
+  destruct (ci_after i) as [a|]; simpl.
+  2:{ split; [split; [discriminate|intros [a [E _]]; discriminate]|now right]. }
+  destruct (cond_true (ci_init i)) eqn:Hi; simpl.
+  2:{ split; [|now right]. split; [discriminate|]. intros [a' [_ [H _]]]. apply cond_true_iff in H. congruence. }
+  apply cond_true_iff in Hi.
+  destruct (Z.eqb_spec a 0) as [E|NE]; simpl.
+  { split; [|now left]. split; [|reflexivity]. intros _. exists a. auto. }
+  destruct (Z.ltb_spec (ci_now i - time_to_check i) a); simpl.
+  - split; [|now right]. split; [discriminate|]. intros [a' [E [_ [H1|H1]]]]; inversion E; subst; lia.
+  - split; [|now left]. split; [|reflexivity]. intros _. exists a. repeat split; auto.
+Qed.
+
+(* when the condition is withheld because the window has not elapsed, the requeue lands exactly on the
+   instant at which the next reconcile sets it *)
+Theorem requeue_hits_boundary_l : forall i rq,
+  reconcile_consolidatable i = (None, rq) -> rq <> 0 ->
+  reconcile_consolidatable (mkCI (ci_now i + rq) (ci_after i) (ci_init i) (ci_init_ltt i) (ci_last_pod i) None)
+  = (Some CTrue, 0).
+Proof.
+  intros i rq. unfold reconcile_consolidatable, under_consolidate_after, time_to_check. simpl.
+  destruct (ci_after i) as [a|]; [|intros H; inversion H; congruence].
+  destruct (cond_true (ci_init i)); simpl; [|intros H; inversion H; congruence].
+  destruct (Z.eqb_spec a 0); simpl; [intros H; inversion H|].
+  destruct (Z.ltb_spec (ci_now i - match ci_last_pod i with Some t => t | None => ci_init_ltt i end) a) as [Hlt|Hge]; simpl;
+    intros H; inversion H; subst; intros _.
+  destruct (Z.ltb_spec (ci_now i + (match ci_last_pod i with Some t => t | None => ci_init_ltt i end + a - ci_now i)
+                        - match ci_last_pod i with Some t => t | None => ci_init_ltt i end) a) as [Hlt2|Hge2]; [lia|reflexivity].
+Qed.
+
+(* ------------------------------------------------------------------ two literal readings the code does not satisfy *)
+
+(* (1) "empty" read as "no reschedulable pod": a WhenEmpty pool deletes a node whose only pod has eviction
+   cost 0 (pod-deletion-cost -2^27). Documented behaviour (designs/balanced-consolidation.md). *)
+Definition zero_cost_pod : pod :=
+  mkPod "default" "p1" [("app", "p1")] "Running" false [("apps/v1", "ReplicaSet")] [] None (Some (-3500000000000)) []
+        (Some (-134217728)) None.
+Definition base_labels (pl : string) : smap := [("ct", "on-demand"); ("it", "it-a"); ("np", pl); ("zone", "z1")].
+Definition base_node_labels (pl : string) : smap :=
+  [("ct", "on-demand"); ("init", "true"); ("it", "it-a"); ("np", pl); ("reg", "true"); ("zone", "z1")].
+Definition pl_wempty : pool := mkPool "wempty" true (Some ["it-a"]) false (Some 30000000000) "WhenEmpty".
+Definition n_zero_cost : snode :=
+  mkSNode "n1" (Some (mkClaim (base_labels "wempty") [] false None (Some CTrue) (Some CTrue) false))
+          (Some (mkNode (base_node_labels "wempty") [] false)) [zero_cost_pod] false 0.
+Definition w_zero_cost : world := mkWorld 0 10000000000 FNone [pl_wempty] [] [n_zero_cost] [OTick 100000000000].
+
+Lemma when_empty_literal_refuted_l :
+  exists w n pl, get_candidates w Emptiness = Some [s_id n] /\ In n (w_nodes w) /\ o_pool w n = Some pl /\
+                 pl_policy pl = "WhenEmpty" /\ ~ literally_empty n.
+Proof.
+  exists w_zero_cost, n_zero_cost, pl_wempty. split; [vm_compute; reflexivity|].
+  split; [left; reflexivity|]. split; [vm_compute; reflexivity|]. split; [reflexivity|].
+  intros H. specialize (H zero_cost_pod (or_introl eq_refl)). vm_compute in H. discriminate.
+Qed.
+
+Definition positive_costs (n : snode) : Prop :=
+  forall p, In p (pods_of n) -> is_reschedulable p = true -> 0 < evict_cost p.
+
+Lemma empty_literal n : positive_costs n -> (empty n <-> literally_empty n).
+Proof.
+  intros Hpos. split; intros H p Hp.
+  - destruct (is_reschedulable p) eqn:Hr; [|reflexivity]. specialize (H p Hp Hr). specialize (Hpos p Hp Hr). lia.
+  - intros Hr. rewrite (H p Hp) in Hr. discriminate.
+Qed.
+
+Lemma when_empty_literal_partial_l : forall w m ids id, pdbs_wf w -> get_candidates w m = Some ids -> In id ids ->
+  is_consolidation m = true ->
+  exists n pl, In n (w_nodes w) /\ s_id n = id /\ o_pool w n = Some pl /\
+    (positive_costs n -> (m = Emptiness -> literally_empty n) /\
+                         (m <> Emptiness -> ~ literally_empty n /\ pl_policy pl <> "WhenEmpty")).
+Proof.
+  intros w m ids id wf Hget Hin Hm.
+  destruct (consolidation_requires_l w m ids id wf Hget Hin Hm) as [n [c [pl [Hn [Hid [_ [Hpl [_ [_ [_ [H1 H2]]]]]]]]]]].
+  exists n, pl. do 3 (split; [assumption|]). intros Hpos. split.
+  - intros E. apply (empty_literal n Hpos). now apply H2.
+  - intros NE. destruct (H1 NE) as [H3 H4]. split; [|exact H4]. intros HL. apply H3. now apply (empty_literal n Hpos).
+Qed.
+
+(* (2) the node-level do-not-disrupt annotation is read from the NodeClaim while the Node lacks the
+   karpenter.sh/registered label, even when the Node is labelled initialized: an annotation on the Node
+   object is then not seen. *)
+Definition k_unregistered_dnd : knode :=
+  mkNode [("ct", "on-demand"); ("init", "true"); ("it", "it-a"); ("np", "dyn"); ("zone", "z1")] [("dnd", "true")] false.
+Definition n_unregistered_dnd : snode :=
+  mkSNode "n1" (Some (mkClaim (base_labels "dyn") [] false None (Some CTrue) (Some CTrue) false))
+          (Some k_unregistered_dnd) [] false 0.
+Definition w_unregistered_dnd : world :=
+  mkWorld 0 10000000000 FNone
+    [mkPool "dyn" true (Some ["it-a"]) false (Some 30000000000) "WhenEmptyOrUnderutilized"] []
+    [n_unregistered_dnd] [OTick 100000000000].
+
+Lemma node_dnd_literal_refuted_l :
+  exists w n k, get_candidates w Drift = Some [s_id n] /\ In n (w_nodes w) /\ s_node n = Some k /\
+                get K_DND (k_annos k) = "true".
+Proof.
+  exists w_unregistered_dnd, n_unregistered_dnd, k_unregistered_dnd. split; [vm_compute; reflexivity|].
+  split; [left; reflexivity|]. split; reflexivity.
+Qed.
+
+Lemma node_dnd_literal_partial_l : forall w m ids id, pdbs_wf w -> get_candidates w m = Some ids -> In id ids ->
+  exists n k, In n (w_nodes w) /\ s_id n = id /\ s_node n = Some k /\
+    (get K_REG (k_labels k) = "true" -> get K_DND (k_annos k) <> "true").
+Proof.
+  intros w m ids id wf Hget Hin.
+  destruct (candidate_implies_eligible_l w m ids id wf Hget Hin) as [n [Hn [Hid He]]].
+  destruct He as [c [k [Hc [Hk [_ [_ [_ [Hd _]]]]]]]].
+  exists n, k. do 3 (split; [assumption|]). intros Hr.
+  unfold annos, pick, registered in Hd. rewrite Hc, Hk in Hd. rewrite Hr in Hd. simpl in Hd. exact Hd.
+Qed.
+
+(* ------------------------------------------------------------------ non-vacuity helpers *)
+Definition w_example : world :=
+  mkWorld 0 10000000000 FNone
+    [mkPool "dyn" true (Some ["it-a"]) false (Some 30000000000) "WhenEmptyOrUnderutilized";
+     mkPool "static" true (Some ["it-a"]) true None "WhenEmptyOrUnderutilized"]
+    [mkPdb "default" "pdb1" (Some [("app", "p1")]) 0 false]
+    [mkSNode "busy" (Some (mkClaim (base_labels "dyn") [] false None (Some CTrue) (Some CTrue) false))
+             (Some (mkNode (base_node_labels "dyn") [] false))
+             [mkPod "default" "p2" [("app", "p2")] "Running" false [("apps/v1", "ReplicaSet")] [] None (Some 0) [] None None] false 0;
+     mkSNode "idle" (Some (mkClaim (base_labels "dyn") [] false None (Some CTrue) None false))
+             (Some (mkNode (base_node_labels "dyn") [] false)) [] false 0;
+     mkSNode "guarded" (Some (mkClaim (base_labels "dyn") [] false None (Some CTrue) (Some CTrue) true))
+             (Some (mkNode (base_node_labels "dyn") [] false))
+             [mkPod "default" "p1" [("app", "p1")] "Running" false [("apps/v1", "ReplicaSet")] [] None (Some 0) [] None None] false 0;
+     mkSNode "fixed" (Some (mkClaim (base_labels "static") [] false None None (Some CTrue) false))
+             (Some (mkNode (base_node_labels "static") [] false)) [] false 0;
+     mkSNode "nominated" (Some (mkClaim (base_labels "dyn") [] false None (Some CTrue) (Some CTrue) false))
+             (Some (mkNode (base_node_labels "dyn") [] false)) [] false 0]
+    [OTick 90000000000; ONominate "nominated"; OTick 10000000000].
